@@ -119,4 +119,18 @@ int hwloc_internal_cpukinds_register(hwloc_topology_t topology, hwloc_cpuset_t c
   cpuset->live = 0; verif_bm_released++; verif_register_calls++;      /* takes ownership */
   return nondet_bool() ? 0 : -1;
 }
+unsigned verif_setvalue_calls;
+int hwloc_internal_memattr_set_value(hwloc_topology_t topology, hwloc_memattr_id_t id, hwloc_obj_type_t target_type, hwloc_uint64_t target_gp_index, unsigned target_os_index,
+                                     struct hwloc_internal_location_s *initiator, hwloc_uint64_t value)
+{
+  (void)topology; (void)id; (void)target_gp_index; (void)target_os_index; (void)value;
+  __CPROVER_assert(target_type >= HWLOC_OBJ_TYPE_MIN && target_type < HWLOC_OBJ_TYPE_MAX, "set_value receives a valid target type");
+  if (initiator) {
+    __CPROVER_assert(initiator->type == HWLOC_LOCATION_TYPE_CPUSET || initiator->type == HWLOC_LOCATION_TYPE_OBJECT, "set_value receives a typed initiator");
+    if (initiator->type == HWLOC_LOCATION_TYPE_CPUSET) __CPROVER_assert(initiator->location.cpuset != 0 && initiator->location.cpuset->live, "initiator cpuset is live (set_value copies it)");
+    else __CPROVER_assert(initiator->location.object.type >= HWLOC_OBJ_TYPE_MIN && initiator->location.object.type < HWLOC_OBJ_TYPE_MAX, "initiator object type is valid");
+  }
+  verif_setvalue_calls++;
+  return nondet_bool() ? 0 : -1;
+}
 #include "xml.harness.c"
